@@ -21,8 +21,28 @@ SPLIT = {
 }
 
 
+def _auto_split():
+    """Thumb-2 arithmetic with a modified immediate (ThumbExpandImm: one path per rotation) or a shifted register:
+    the add-with-carry obligations are the slowest of the data-processing table -- split on i:imm3 / on the shift
+    type"""
+    import re
+    for name, E in ISA.items():
+        if name in SPLIT or E.iset != 'T32' or E.family != 'dp':
+            continue
+        if not re.match(r'(Adc|Sbc|Sub|Rsb|Add|Cmp|Cmn)', name):
+            continue
+        have = {n for k, n, w, v in E.items if k == 'f'}
+        if {'i', 'imm3', 'imm8'} <= have:
+            SPLIT[name] = [('i', 2), ('imm3', 8)]
+        elif {'type', 'imm3', 'imm2', 'Rm'} <= have:
+            SPLIT[name] = [('type', 4)]
+
+
 def split_cases(name, kw):
     """[(suffix, kw)] for the case split of row `name` (one entry with an empty suffix when the row is not split)"""
+    if not getattr(split_cases, 'auto', False):
+        split_cases.auto = True
+        _auto_split()
     cases = [('', kw)]
     fixed = kw.get('fix') or {}
     have = {n for k, n, w, v in ISA[name].items if k == 'f'}
